@@ -293,6 +293,8 @@ def run(repo: Repo, rep: Report, tier: str) -> None:
     rep.rule("fragments-complete", "the data-set bytes are cut into consecutive fragments that together are the whole data set and are re-joined in order (C15's fragmentation rules)")
     delegate(repo, rep, tier, "C15", ("overhead", "overhead-count", "order-flags", "reader-bits", "reader-complete", "one-pdv", "file-offset"), "fragments-complete", "for some data-set length and peer maximum the bytes that arrive are not the bytes that were sent (a tail that is never sent, a fragment read out of place)")
 
+    rep.rule("dataset-whole", "data sets travel between primitive and message as whole buffers, never relative to a stream position (C16's position-independent rule)")
+    delegate(repo, rep, tier, "C16", ("position-independent",), "dataset-whole", "a forwarded or re-sent data set arrives empty or cut: the bytes before the stream position are left out")
     rep.rule("bytes-complete", "what AssociationSocket.recv returns is exactly the bytes the socket delivered (C03's recv-exact): a broken connection gives a short PDU, never padding or stale bytes")
     delegate(repo, rep, tier, "C03", ("recv-exact",), "bytes-complete", "a PDU cut short by a broken connection is completed to its announced length with zeros or with bytes of an earlier PDU: the length check passes and the EVT_C_STORE handler is given a data set of the right size with a wrong tail")
     check_store_subop_dataset_intact(repo, rep)
